@@ -27,7 +27,7 @@ func (c *Ctx) spellings(values []int) *spellTable {
 	if values == nil {
 		values = []int{}
 	}
-	r := c.RunTLC(TLCOpts{Module: "GoccLex", Cfg: "LexRefEval.cfg", Workers: 1, Timeout: 20 * time.Minute, Files: map[string][]byte{"values.json": mustJSON(values)}})
+	r := c.RunTLC(TLCOpts{Module: "GoccLex", Cfg: "LitConv_quick.cfg", Workers: 1, Timeout: 20 * time.Minute, Files: map[string][]byte{"values.json": mustJSON(values)}})
 	if !r.OK {
 		infra("GoccLex.tla failed (%s): a spelling does not denote its code point under Go's rule, or TLC failed\n%s", r.ErrKind, tail(filterTLC(r.Out), 30))
 	}
@@ -141,7 +141,7 @@ func checkC13(c *Ctx) {
 	}
 	var bases []base
 	values := map[int]bool{}
-	nb := c.pick(24, 160)
+	nb := c.pick(24, 400)
 	for i := 0; i < nb; i++ {
 		var text string
 		if i%2 == 0 {
@@ -180,7 +180,7 @@ func checkC13(c *Ctx) {
 		vals = append(vals, v)
 	}
 	st := c.spellings(vals)
-	plans := c.pick(6, 25)
+	plans := c.pick(6, 40)
 	mA := c.NewModule("c13a")
 	type job struct {
 		b     int
